@@ -1,11 +1,14 @@
-(* Model/ClusteringInf.v — the per-node clustering routines of bct/algorithms/clustering.py with the float
-   quotient made VISIBLE (C10, self-connections).  Model/Clustering.v computes  cyc3 / CYC3  with Q's total
-   division (x / 0 = 0), which is harmless on the domain of C09 (empty diagonal: a nonzero numerator forces a
-   positive denominator, C09_no_division_by_zero) but hides what the code returns when a self-connection
-   makes the denominator K(K-1) [- 2 diag(A^2)] vanish under a nonzero cyc3: the float quotient is then +-inf.
-   Here the last statement `C = cyc3 / CYC3` returns [option Q], None = a non-finite float.  (0/0 cannot
-   occur: where cyc3 == 0 the code has overwritten K with inf, and finite / inf = 0.)
-   The statements before the quotient are, word for word, those of Model/Clustering.v.
+(* Model/ClusteringInf.v — the per-node clustering routines of bct/algorithms/clustering.py, statement by statement
+   INCLUDING the float quotient and the denominator masks added by the repair 366dab6 (C10, self-connections).
+   Model/Clustering.v computes  cyc3 / CYC3  with Q's total division (x / 0 = 0).  Before 366dab6 that hid an inf of the
+   code: a self-connection could make K(K-1) [- 2 diag(A^2)] vanish under a nonzero cyc3 (this model, then without the
+   masks, returned None there and the two pairs wu/bu, bd/bu were refuted on the witness [[1,1],[1,0]]).  The code now
+   overwrites a vanishing denominator with inf before dividing
+       clustering_coef_bd / _wd :  CYC3[np.where(CYC3 == 0)] = np.inf
+       clustering_coef_wu       :  K[np.where(K < 2)] = np.inf
+   so the quotient is finite / nonzero-or-inf.  Here the last statement `C = cyc3 / CYC3` returns [option Q], None = a
+   non-finite float; Proofs/ReduceSelfloop.v proves that None is NEVER returned (any matrix, any diagonal) and that the
+   value is the one of Model/Clustering.v, whose total division stands in for the mask.
    clustering_coef_bu divides only under `if k >= 2` by k*k-k > 0: it stays [cc_bu].  Definitions only. *)
 From Coq Require Import QArith Qabs List Arith Bool ZArith Lia.
 From BCT Require Import Base.Mat Base.SumQ Model.Threshold Model.Clustering.
@@ -16,19 +19,25 @@ Open Scope Q_scope.
 Definition xdivo (c : Q) (d : xq) : option Q :=
   match d with Fin q => if Qeq_bool q 0 then None else Some (c / q) | PInf => Some 0 end.
 
-(* clustering_coef_bd (lines 128-135) *)
+(* CYC3[np.where(CYC3 == 0)] = np.inf *)
+Definition xzinf (d : xq) : xq := match d with Fin q => if Qeq_bool q 0 then PInf else Fin q | PInf => PInf end.
+(* K[np.where(K < 2)] = np.inf   (inf < 2 is False) *)
+Definition xlt2inf (k : xq) : xq := match k with Fin q => if Qltb q 2 then PInf else Fin q | PInf => PInf end.
+
+(* clustering_coef_bd (lines 128-137) *)
 Definition cc_bd_o (n : nat) (A : mat Q) (i : nat) : option Q :=
   let S := madd A (mT A) in
   let K := rowsum n S i in
   let cyc3 := diag3 n S i / 2 in
   let K' := xmask cyc3 K in
   let CYC3 := xsub (xkk1 K') (2 * diag2 n A i) in
-  xdivo cyc3 CYC3.
+  let CYC3' := xzinf CYC3 in                       (* the mask of 366dab6 *)
+  xdivo cyc3 CYC3'.
 
 Section WithCbrt.
 Variable cbrt : Q -> Q.
 
-(* clustering_coef_wd (lines 197-205) *)
+(* clustering_coef_wd (lines 199-208) *)
 Definition cc_wd_o (n : nat) (W : mat Q) (i : nat) : option Q :=
   let A := mmap nzQ W in
   let S := madd (mmap cbrt W) (mmap cbrt (mT W)) in
@@ -36,18 +45,20 @@ Definition cc_wd_o (n : nat) (W : mat Q) (i : nat) : option Q :=
   let cyc3 := diag3 n S i / 2 in
   let K' := xmask cyc3 K in
   let CYC3 := xsub (xkk1 K') (2 * diag2 n A i) in
-  xdivo cyc3 CYC3.
+  let CYC3' := xzinf CYC3 in                       (* the mask of 366dab6 *)
+  xdivo cyc3 CYC3'.
 
-(* clustering_coef_wu (lines 226-231) *)
+(* clustering_coef_wu (lines 229-235) *)
 Definition cc_wu_o (n : nat) (W : mat Q) (i : nat) : option Q :=
   let K := rowsum n (mmap nzQ W) i in
   let ws := mmap cbrt W in
   let cyc3 := diag3 n ws i in
   let K' := xmask cyc3 K in
-  xdivo cyc3 (xkk1 K').
+  let K'' := xlt2inf K' in                         (* the mask of 366dab6 *)
+  xdivo cyc3 (xkk1 K'').
 End WithCbrt.
 
-(* ---------- executable interface: which = 0 bd, 1 wd, 2 wu; None = inf in the returned vector ---------- *)
+(* ---------- executable interface: which = 0 bd, 1 wd, 2 wu; None = inf in the returned vector (never, by cc_o_total) ---------- *)
 Definition ovec (n : nat) (f : nat -> option Q) : list (option Q) := map (fun i => qopt (f i)) (seq 0 n).
 Definition run_cc_o (rows : list (list Q)) (which : nat) : list (option Q) :=
   let n := length rows in
